@@ -700,6 +700,22 @@ fn debug(args: &[String]) -> i32 {
   for o in index.verif_outpoints().unwrap() {
     println!("  {o} {:?}", index.verif_utxo_entry(o).unwrap());
   }
+  let gets: Vec<&String> = args
+    .iter()
+    .enumerate()
+    .filter(|(i, _)| *i > 0 && args[i - 1] == "--get")
+    .map(|(_, a)| a)
+    .collect();
+  if !gets.is_empty() {
+    let opts = sc.server.clone().unwrap_or_default();
+    let mut web = crate::web::Web::start(&ex, &opts, &[]).unwrap();
+    for path in gets {
+      let reply = web.get(path, &[("accept", "application/json")]);
+      println!("GET {path} -> {} {:?}", reply.status, reply.headers);
+      println!("{}", String::from_utf8_lossy(&reply.body).chars().take(3000).collect::<String>());
+    }
+    println!("panics: {:?}", crate::exec::take_panics());
+  }
   if args.iter().any(|a| a == "--trace") {
     ex.sim.snapshot(|s| {
       for l in s.trace_log.as_ref().unwrap() {
